@@ -87,13 +87,13 @@ func popSpecs() []popSpec {
 		{Op: "labels", Bug: "b9", By: "I5", Unix: 1081, Add: []string{"it's"}},
 		{Op: "comment", Bug: "b1", By: "I5", Unix: 1082, Msg: "me neither"},
 		// titles whose only capitals are non-ASCII; author / commenter (participant) / closer (actor only) differ
-		{Op: "new", Bug: "b10", By: "I6", Unix: 1090, Title: "Überlauf im zähler", Msg: "lynx ubiquitous"},
+		{Op: "new", Bug: "b10", By: "I6", Unix: 1090, Title: "Überlauf im zähler", Msg: "lynx ubiquitous", Meta: map[string]string{"tracker url": "https://example.org/2", "origin:kind": "two words"}},
 		{Op: "comment", Bug: "b10", By: "I7", Unix: 1091, Msg: "plain"},
 		{Op: "close", Bug: "b10", By: "I8", Unix: 1092},
 		{Op: "new", Bug: "b11", By: "I7", Unix: 1100, Title: "Дмитрий und Ωμέγα", Msg: "lynx ubiquitous"},
 		{Op: "comment", Bug: "b11", By: "I8", Unix: 1101, Msg: "plain"},
 		{Op: "labels", Bug: "b11", By: "I6", Unix: 1102, Add: []string{"prod"}},
-		{Op: "new", Bug: "b12", By: "I8", Unix: 1110, Title: "Émile trifft Ørsted", Msg: "lynx ubiquitous"},
+		{Op: "new", Bug: "b12", By: "I8", Unix: 1110, Title: "Émile trifft Ørsted", Msg: "lynx ubiquitous", Meta: map[string]string{"tracker url": "https://example.org/1", "origin:kind": "mirror"}},
 		// a search word carried by more than ten bugs: every create message ends with "ubiquitous", and
 		// all bugs but b6 get a comment by their own author carrying "frequent"
 		{Op: "comment", Bug: "b1", By: "I0", Unix: 1200, Msg: "this is frequent"},
